@@ -53,11 +53,19 @@ OCC = "ijklmno"
 VIRT = "abcdefg"
 
 
-def _idx_strings(cls, which):
-    """index strings for bra (which=0) / ket (which=1) / alternative (2)"""
+def _idx_strings(cls, which, swap=False):
+    """index strings for bra (which=0) / ket (which=1); swap: the first two
+    names of a space are listed in descending order"""
     no, nv = cls
     off = which * 3
-    return OCC[off:off + no] + VIRT[off:off + nv]
+    o = list(OCC[off:off + no])
+    v = list(VIRT[off:off + nv])
+    if swap:
+        if len(o) >= 2:
+            o[0], o[1] = o[1], o[0]
+        elif len(v) >= 2:
+            v[0], v[1] = v[1], v[0]
+    return "".join(o) + "".join(v)
 
 
 def bounds(tier):
@@ -100,6 +108,11 @@ def generate(tier):
                                       c1, c2, n))
                         cases.append(("overlap_precursor", variant, gsv,
                                       singles, c1, c2, n))
+                        if n <= 1 and (gsv, singles) == ("mp", False) and \
+                                max(c1) >= 2:
+                            # bra index string in descending order
+                            cases.append(("overlap_isr", variant, gsv,
+                                          singles, c1, c2, n, "b"))
         if tier == "quick" and variant in ("pp", "ip"):
             c = classes[0]
             for gsv, singles in (("mp", True), ("re", False)):
@@ -127,7 +140,7 @@ def generate(tier):
         cases.append(("spaces", variant))
     # cheap cases first
     cases.sort(key=lambda c: (c[0] in ("overlap_isr", "overlap_precursor"),
-                              c[-1] if isinstance(c[-1], int) else 0))
+                              c[6] if len(c) > 6 else 0))
     return cases
 
 
@@ -191,9 +204,10 @@ def run_case(case):
         return _run_taylor(case)
     if kind == "spaces":
         return _run_spaces(case)
-    _, variant, gsv, singles, c1, c2, n = case
+    _, variant, gsv, singles, c1, c2, n = case[:7]
+    swap = len(case) > 7
     isr = _isr(variant, gsv, singles)
-    names1 = tuple(_idx_strings(c1, 0))
+    names1 = tuple(_idx_strings(c1, 0, swap))
     names2 = tuple(_idx_strings(c2, 1))
     block = f"{space_string(c1)},{space_string(c2)}"
     indices = f"{''.join(names1)},{''.join(names2)}"
